@@ -74,3 +74,112 @@ func VC15() {
 	vrt.Reach("c15.accepted")
 	vrt.Assert(oc == "ok" && !d && string(out) == string(ref), "c15.same")
 }
+
+func init() { vrt.Register("zzverif.VC15Coff", VC15Coff) }
+
+// VC15Coff: in COFF output a consistent renaming changes only symbol-name
+// fields and the string table: everything before the symbol table is
+// byte-identical, and the symbol records agree in number, order, value,
+// section, class and auxiliary data, their names being the renamed ones.
+func VC15Coff() {
+	k := vrt.Choose("names", len(c15Names))
+	layout := vrt.Choose("layout", 3)
+	prog := func(n [3]string) string {
+		a, b, e := n[0], n[1], n[2]
+		globals := "\tGLOBAL " + a + ", " + b + "\n"
+		if layout == 1 {
+			globals = "\tGLOBAL " + b + "\n\tGLOBAL " + a + "\n"
+		}
+		body := e + " EQU 4\n" + a + ":\n\tMOV EAX,[ESP+" + e + "]\n\tRET\n" + b + ":\n\tMOV ECX," + e + "*2\n\tCALL " + a + "\n\tRET\n"
+		head := "[FORMAT \"WCOFF\"]\n[BITS 32]\n[FILE \"ren.nas\"]\n"
+		if layout == 2 {
+			return head + "[SECTION .text]\n" + body + globals
+		}
+		return head + globals + "[SECTION .text]\n" + body
+	}
+	ref, ocr := AssembleT(prog(c15Names[0]), nil, "ref")
+	dr := diagnosed()
+	vrt.ResetDiag()
+	src := prog(c15Names[k])
+	vrt.Note("src", src)
+	out, oc := AssembleT(src, nil, "out")
+	d := diagnosed()
+	vrt.NoteBytes("ref", ref)
+	vrt.NoteBytes("out", out)
+	if ocr != "ok" || dr {
+		vrt.Reach("c15.coff.rejected")
+		return
+	}
+	vrt.Reach("c15.coff.accepted")
+	vrt.Assert(oc == "ok" && !d, "c15.coff.accepted")
+	ro, p1 := readCoff(ref)
+	oo, p2 := readCoff(out)
+	vrt.Note("problems", p1+"/"+p2)
+	vrt.Assert(p1 == "" && p2 == "", "c15.coff.valid")
+	// headers, section table, raw data, relocations: identical
+	symtab := le32(ref[8:])
+	vrt.Assert(le32(out[8:]) == symtab && len(out) >= symtab && string(out[:symtab]) == string(ref[:symtab]), "c15.coff.body")
+	// symbol records: same shape, names renamed
+	ren := map[string]string{}
+	for i := 0; i < 3; i++ {
+		ren[c15Names[0][i]] = c15Names[k][i]
+	}
+	same := len(ro.Syms) == len(oo.Syms) && ro.NRecords == oo.NRecords
+	if same {
+		for i, s := range ro.Syms {
+			t := oo.Syms[i]
+			want := s.Name
+			if r, ok := ren[s.Name]; ok {
+				want = r
+			}
+			if t.Name != want || t.Value != s.Value || t.Section != s.Section || t.Class != s.Class || t.NAux != s.NAux || string(t.Aux) != string(s.Aux) {
+				same = false
+			}
+		}
+	}
+	vrt.Assert(same, "c15.coff.symbols")
+}
+
+func init() { vrt.Register("zzverif.VC15Sym", VC15Sym) }
+
+// VC15Sym: as VC15, with one or two characters of the new names solver
+// variables over [A-Za-z0-9_] (4 classes per position): the renamed text
+// goes through the real parser, symbol table and template substitution with
+// those bytes symbolic.
+func VC15Sym() {
+	p := vrt.Choose("prog", len(c15Programs))
+	which := vrt.Choose("which", 3) // which of the three names carries the symbolic characters
+	classes := [][2]byte{{'a', 'z'}, {'A', 'Z'}, {'0', '9'}, {'_', '_'}}
+	c1 := classes[vrt.Choose("class1", 4)]
+	x := vrt.Byte("x", c1[0], c1[1])
+	tail := ""
+	if vrt.Param("two") != 0 {
+		c2 := classes[vrt.Choose("class2", 4)]
+		tail = string([]byte{vrt.Byte("y", c2[0], c2[1])})
+	}
+	names := [3]string{"wq", "wqq", "w_q"}
+	names[which] = "w" + string([]byte{x}) + "k" + tail
+	// injective: the symbolic name has 3..4 characters w?k[?]; "wqq" is the
+	// only fixed name of that shape
+	vrt.Assume(vrt.Or(which == 1, x != 'q', tail != ""))
+	ref, ocr := AssembleT(c15Render(c15Programs[p], c15Names[0]), nil, "ref")
+	dr := diagnosed()
+	vrt.ResetDiag()
+	src := c15Render(c15Programs[p], names)
+	out, oc := Assemble(src, "out")
+	d := diagnosed()
+	vrt.NoteBytes("ref", ref)
+	vrt.NoteBytes("out", out)
+	if ocr != "ok" || dr {
+		vrt.Reach("c15.sym.rejected")
+		return
+	}
+	vrt.Reach("c15.sym.accepted")
+	vrt.Assert(oc == "ok" && !d, "c15.sym.accepted")
+	vrt.Assert(len(out) == len(ref), "c15.sym.len")
+	var acc diffAcc
+	for i := range ref {
+		acc.eq(uint64(out[i]), uint64(ref[i]))
+	}
+	vrt.Assert(acc.d == 0, "c15.sym.same")
+}
